@@ -1320,11 +1320,20 @@ pub fn locate(tag: &str, d: &[u8], rng: &mut Rng) -> Vec<Field> {
                     f(&mut out, "CBLC.sub.word1", h + 12, 4, n);
                     f(&mut out, "CBLC.sub.word2", h + 16, 4, n);
                     f(&mut out, "CBLC.sub.half", h + 8 + 2 * rng.usize_below(16), 2, n);
+                    if matches!(be16(d, h), Some(2) | Some(5)) {
+                        // constant metrics of index formats 2 and 5: imageSize, BigGlyphMetrics
+                        f(&mut out, "CBLC.sub.imageSize", h + 8, 4, n);
+                        f(&mut out, "CBLC.sub.bigMetrics.height", h + 12, 1, n);
+                        f(&mut out, "CBLC.sub.bigMetrics.width", h + 13, 1, n);
+                    }
                 }
             }
         }
         "CBDT" | "EBDT" => {
             f(&mut out, "CBDT.version", 0, 4, n);
+            // metrics at the start of the first glyph record (image formats 1, 2, 6, 7, 17, 18)
+            f(&mut out, "CBDT.glyph0.height", 4, 1, n);
+            f(&mut out, "CBDT.glyph0.width", 5, 1, n);
             let k = rng.usize_below(n.max(1));
             f(&mut out, "CBDT.byte", k, 1, n);
         }
